@@ -1512,6 +1512,13 @@ get_pure_virtual_funcs(VFunctions &funcs) const {
   for (vfi = vfuncs.begin(); vfi != vfuncs.end(); ++vfi) {
     CPPInstance *inst = (*vfi);
     if ((inst->_storage_class & CPPInstance::SC_pure_virtual) != 0) {
+      if (inst != get_destructor() && inst->_type != nullptr &&
+          inst->_type->as_function_type() != nullptr &&
+          (inst->_type->as_function_type()->_flags & CPPFunctionType::F_destructor) != 0) {
+        // The pure virtual destructor of a base class is always overridden,
+        // if need be by the implicitly-declared destructor of this class.
+        continue;
+      }
       funcs.push_back(inst);
     }
   }
